@@ -56,7 +56,7 @@ def Op.tierInRange (T : Tiers) : Op → Bool
 /-! ### URL lists -/
 
 theorem urlsOp_reject {known items : List String} {op : UOp} {u : String}
-    (hu : u ∈ op.urls) (hinv : isUrl u = false) :
+    (hu : u ∈ op.urls) (hinv : accepts isUrl u = false) :
     (urlsOp isUrl known items op).2 = .error .url ∧
       (op.atomic = true → (urlsOp isUrl known items op).1 = none) := by
   cases op with
@@ -105,7 +105,7 @@ theorem seedsOp_generic {stored : Option (List String)} {op : UOp} (hop : ∀ us
   cases op <;> first | rfl | exact absurd rfl (hop _)
 
 theorem seedsOp_reject {stored : Option (List String)} {op : SOp} {u : String}
-    (hu : u ∈ op.urls) (hinv : isUrl u = false) :
+    (hu : u ∈ op.urls) (hinv : accepts isUrl u = false) :
     (seedsOp isUrl stored op).2 = .error .url ∧
       (op.atomic = true → (seedsOp isUrl stored op).1 = stored) := by
   cases op with
@@ -152,7 +152,7 @@ theorem seedsOp_reject {stored : Option (List String)} {op : SOp} {u : String}
 /-! ### Trackers -/
 
 theorem mkURLs_reject {known : List String} {v : TierVal} {u : String}
-    (hu : u ∈ tierValUrls v) (hinv : isUrl u = false) : mkURLs isUrl known v = .error .url := by
+    (hu : u ∈ tierValUrls v) (hinv : accepts isUrl u = false) : mkURLs isUrl known v = .error .url := by
   cases v with
   | str s =>
     simp only [tierValUrls] at hu
@@ -167,11 +167,11 @@ theorem mkURLs_reject {known : List String} {v : TierVal} {u : String}
     exact urlsReplace_invalid hu hinv
 
 theorem tiersInsert_reject {T : Tiers} {i : Int} {v : TierVal} {u : String}
-    (hu : u ∈ tierValUrls v) (hinv : isUrl u = false) : tiersInsert isUrl T i v = .error .url := by
+    (hu : u ∈ tierValUrls v) (hinv : accepts isUrl u = false) : tiersInsert isUrl T i v = .error .url := by
   simp [tiersInsert, mkURLs_reject hu hinv]
 
 theorem tiersAddAll_reject {T : Tiers} {vs : List TierVal} {u : String}
-    (hu : u ∈ vs.flatMap tierValUrls) (hinv : isUrl u = false) :
+    (hu : u ∈ vs.flatMap tierValUrls) (hinv : accepts isUrl u = false) :
     tiersAddAll isUrl T vs = .error .url := by
   induction vs generalizing T with
   | nil => simp at hu
@@ -186,7 +186,7 @@ theorem tiersAddAll_reject {T : Tiers} {vs : List TierVal} {u : String}
       · exact ih hu
 
 theorem tiersExtendLoop_reject {T : Tiers} {last : Option Tiers} {vs : List TierVal} {u : String}
-    (hu : u ∈ vs.flatMap tierValUrls) (hinv : isUrl u = false) :
+    (hu : u ∈ vs.flatMap tierValUrls) (hinv : accepts isUrl u = false) :
     (tiersExtendLoop isUrl T last vs).2.2 = .error .url := by
   induction vs generalizing T last with
   | nil => simp at hu
@@ -201,12 +201,12 @@ theorem tiersExtendLoop_reject {T : Tiers} {last : Option Tiers} {vs : List Tier
       · exact ih hu
 
 theorem tiersSetItem_reject {T : Tiers} {i : Int} {v : TierVal} {u : String}
-    (hu : u ∈ tierValUrls v) (hinv : isUrl u = false) :
+    (hu : u ∈ tierValUrls v) (hinv : accepts isUrl u = false) :
     tiersSetItem isUrl T i v = (none, .error .url) := by
   simp [tiersSetItem, mkURLs_reject hu hinv]
 
 theorem tiersSetSlice_reject {T : Tiers} {a b : Option Int} {vs : List TierVal} {u : String}
-    (hu : u ∈ flatVals vs) (hinv : isUrl u = false) :
+    (hu : u ∈ flatVals vs) (hinv : accepts isUrl u = false) :
     tiersSetSlice isUrl T a b vs = (none, .error .url) := by
   simp [tiersSetSlice, urlsReplace_invalid hu hinv]
 
@@ -219,7 +219,7 @@ theorem tierOp_generic {T : Tiers} {ti : Int} {op : UOp} {k : Nat} {tier : Tier}
   cases op <;> first | exact absurd rfl (hop _) | simp only [tierOp, hpi, hget]
 
 theorem tierOp_reject {T : Tiers} {ti : Int} {op : UOp} {u : String}
-    (hu : u ∈ op.urls) (hinv : isUrl u = false) (hti : (pyIndex T.length ti).isSome = true) :
+    (hu : u ∈ op.urls) (hinv : accepts isUrl u = false) (hti : (pyIndex T.length ti).isSome = true) :
     (tierOp isUrl T ti op).2 = .error .url ∧
       (op.atomic = true → (tierOp isUrl T ti op).1 = none) := by
   obtain ⟨k, hpi⟩ := Option.isSome_iff_exists.1 hti
@@ -245,7 +245,7 @@ theorem tierOp_reject {T : Tiers} {ti : Int} {op : UOp} {u : String}
     simp only [h2 ha, Option.map_none]
 
 theorem tiersOp_reject {T : Tiers} {op : TOp} {u : String}
-    (hu : u ∈ op.urls) (hinv : isUrl u = false) (hset : ∀ v, op ≠ .set v)
+    (hu : u ∈ op.urls) (hinv : accepts isUrl u = false) (hset : ∀ v, op ≠ .set v)
     (hti : ∀ ti o, op = .tier ti o → (pyIndex T.length ti).isSome = true) :
     (tiersOp isUrl T op).2 = .error .url ∧
       (op.atomic = true → (tiersOp isUrl T op).1 = none) := by
@@ -293,7 +293,7 @@ theorem tiersOp_reject {T : Tiers} {op : TOp} {u : String}
   | pop i => simp [TOp.urls] at hu
 
 theorem mkTrackers_reject {v : TrackersVal} {u : String}
-    (hu : u ∈ (TOp.set v).urls) (hinv : isUrl u = false) :
+    (hu : u ∈ (TOp.set v).urls) (hinv : accepts isUrl u = false) :
     mkTrackers isUrl v = .error .url := by
   cases v with
   | none => simp [TOp.urls] at hu
@@ -312,7 +312,7 @@ theorem getTrackers_error {s : MI} {e : Err} (h : getTrackers isUrl s = .error e
   tiersAddAll_error h
 
 theorem trackersOp_reject {s : MI} {op : TOp} {u : String}
-    (hu : u ∈ op.urls) (hinv : isUrl u = false)
+    (hu : u ∈ op.urls) (hinv : accepts isUrl u = false)
     (hti : ∀ T, getTrackers isUrl s = .ok T →
       ∀ ti o, op = .tier ti o → (pyIndex T.length ti).isSome = true) :
     (trackersOp isUrl s op).2 = .error .url ∧
@@ -337,7 +337,7 @@ theorem trackersOp_reject {s : MI} {op : TOp} {u : String}
 /-- an operation that tries to store an invalid URL fails with the URL error; unless it is
     extend / += it leaves the metainfo untouched -/
 theorem step_reject {s : MI} {op : Op} {u : String}
-    (hu : u ∈ op.urls) (hinv : isUrl u = false)
+    (hu : u ∈ op.urls) (hinv : accepts isUrl u = false)
     (hti : ∀ T, getTrackers isUrl s = .ok T → op.tierInRange T = true) :
     (step isUrl s op).2 = .error .url ∧ (op.atomic = true → (step isUrl s op).1 = s) := by
   cases op with
